@@ -40,32 +40,40 @@ func getFirstBlockToMigrate(
 	return minBlock, true, nil
 }
 
-// firstTailBlockWithoutCombinedRecord returns the first block of the run of stored blocks at the
-// end of the chain that have no combined record yet, or chainHeight+1 if the head has one.
-func firstTailBlockWithoutCombinedRecord(
+// nextRunWithoutCombinedRecord returns the first run [first, last] of consecutive stored blocks
+// (blocks that have a header) up to chainHeight that have no combined record yet.
+func nextRunWithoutCombinedRecord(
 	database db.KeyValueReader,
 	chainHeight uint64,
-) (uint64, error) {
-	next := chainHeight + 1
-	for next > 0 {
-		has, err := core.BlockTransactionsBucket.Has(database, next-1)
+) (first, last uint64, found bool, err error) {
+	for blockNumber := uint64(0); blockNumber <= chainHeight; blockNumber++ {
+		missing, err := isStoredWithoutCombinedRecord(database, blockNumber)
 		if err != nil {
-			return 0, err
+			return 0, 0, false, err
 		}
-		if has {
-			break
+		switch {
+		case missing && !found:
+			first, last, found = blockNumber, blockNumber, true
+		case missing:
+			last = blockNumber
+		case found:
+			return first, last, true, nil
 		}
-		// Stop at blocks that are not stored (e.g. pruned): there is nothing to migrate there.
-		hasHeader, err := core.BlockHeadersByNumberBucket.Has(database, next-1)
-		if err != nil {
-			return 0, err
+		if blockNumber == chainHeight {
+			break // chainHeight may be the largest uint64
 		}
-		if !hasHeader {
-			break
-		}
-		next--
 	}
-	return next, nil
+	return first, last, found, nil
+}
+
+// isStoredWithoutCombinedRecord reports whether the block is stored (not pruned) but has no
+// combined record.
+func isStoredWithoutCombinedRecord(database db.KeyValueReader, blockNumber uint64) (bool, error) {
+	has, err := core.BlockTransactionsBucket.Has(database, blockNumber)
+	if err != nil || has {
+		return false, err
+	}
+	return core.BlockHeadersByNumberBucket.Has(database, blockNumber)
 }
 
 func getFirstBlockInBucket[A any](items iter.Seq2[prefix.Entry[A], error]) (uint64, bool, error) {
